@@ -314,11 +314,29 @@ def judge(src, *, optimize=True, power_pole_type=None, rnd=None, scalar_own_sign
             status = "crosstalk" if ist == "same" else "mismatch"
             pv.outputs.append(OutputVerdict(name, status, f"signal {label}", witness))
     _judge_entities(pv, sem, c, ev, B, cap, overrides)
+    if not optimize and any(o.status == "mismatch" for o in pv.outputs) and _const_const_decider(c):
+        for o in pv.outputs:
+            if o.status == "mismatch":
+                o.status = "const-const-decider"
     if cap is not None and any(o.status == "mismatch" for o in pv.outputs) and _entity_output_collision(cap):
         for o in pv.outputs:
             if o.status == "mismatch":
                 o.status = "entity-output-collision"
     return pv
+
+
+def _const_const_decider(c):
+    """Class of KF-C01-noopt-constant-comparison: the (unoptimised) blueprint contains a decider whose
+    condition compares the placeholder signal-0 with a constant, i.e. both operands of the source
+    comparison were constants and the left one was lost."""
+    for e in c.ents.values():
+        if e.kind != "decider":
+            continue
+        for cond in (e.cb.get("decider_conditions", {}) or {}).get("conditions", []) or []:
+            fs = cond.get("first_signal") or {}
+            if fs.get("name") == "signal-0" and not cond.get("second_signal"):
+                return True
+    return False
 
 
 def _entity_output_collision(cap):
